@@ -250,8 +250,20 @@ namespace
                 // the lock() proxy: the wrapped allocator is used directly while the proxy is alive
                 auto  l = s.lock();
                 void* p = l->allocate_node(16, 8);
-                l->deallocate_node(p, 16, 8);
-                (void)l->max_node_size();
+                if (r.chance(50))
+                {
+                    // the proxy handed on (stored in another object, returned from a function): the lock goes with it
+                    auto l2 = std::move(l);
+                    l2->deallocate_node(p, 16, 8);
+                    (void)l2->max_node_size();
+                    auto l3 = std::move(l2);
+                    (void)l3->max_alignment();
+                }
+                else
+                {
+                    l->deallocate_node(p, 16, 8);
+                    (void)l->max_node_size();
+                }
                 break;
             }
             }
